@@ -228,4 +228,73 @@ def store_add_objects(req):
         shutil.rmtree(d, ignore_errors=True)
 
 
-HANDLERS = dict(helpers=helpers, idx=idx, pack_roundtrip=pack_roundtrip, git_pack=git_pack, store_add_objects=store_add_objects)
+def repack_roundtrip(req):
+    """objects that already sit (deltified by git or by dulwich) in a pack of a store are written into a new pack through
+    the paths that reuse what is there: write_pack_from_container(reuse_deltas) over a subset of the ids, and
+    write_pack_data over iter_unpacked_subset(include_comp) over all of them"""
+    from dulwich.object_store import DiskObjectStore
+    d = tempfile.mkdtemp(prefix="verif-repack-", dir=os.environ.get("VERIF_SCRATCH") or None)
+    try:
+        datas = [R(b) for b in req["blobs"]]
+        objs = [Blob.from_string(x) for x in datas]
+        ids = {o.id: o.data for o in objs}
+        st = DiskObjectStore.init(os.path.join(d, "objects"))
+        try:
+            if req["source"] == "git":
+                g = os.path.join(d, "g.git")
+                _git(["init", "-q", "--bare", g], "/")
+                for x in datas:
+                    _git(["hash-object", "-w", "--stdin"], g, input=x)
+                r = _git(["pack-objects", "--window=50", "--depth=50", "-q"] + (["--delta-base-offset"] if req["ofs"] else []) + [os.path.join(d, "objects", "pack", "pack")], g,
+                         input=b"\n".join(ids) + b"\n")
+                if r.returncode:
+                    return {"setup_exc": r.stderr.decode()[:200]}
+            else:
+                base = os.path.join(d, "objects", "pack", "pack-" + "0" * 40)
+                with open(base + ".pack", "wb") as f:
+                    entries, data_sum = P.write_pack_objects(f.write, [(o, None) for o in objs], SHA1, deltify=True)
+                with open(base + ".idx", "wb") as f:
+                    P.write_pack_index(f, sorted((k, v[0], v[1]) for k, v in entries.items()), data_sum, version=2)
+            st.close()
+            st = DiskObjectStore(os.path.join(d, "objects"))
+            src_deltas = sum(1 for p in st.packs for u in p.data.iter_unpacked() if u.pack_type_num in (6, 7))
+            subset = [sorted(ids)[i] for i in req["subset"]]
+            out = os.path.join(d, "out")
+            res = {"n": len(subset), "src_deltas": src_deltas}
+            try:
+                with open(out + ".pack", "wb") as f:
+                    if req["how"] == "container":
+                        entries, data_sum = P.write_pack_from_container(f.write, st, [(i, None) for i in subset], SHA1, deltify=req["deltify"],
+                                                                        reuse_deltas=req["reuse"], compression_level=req["level"])
+                    else:
+                        entries, data_sum = P.write_pack_data(f.write, st.iter_unpacked_subset(subset, include_comp=req["comp"]), num_records=len(subset),
+                                                              object_format=SHA1, compression_level=req["level"])
+                with open(out + ".idx", "wb") as f:
+                    P.write_pack_index(f, sorted((k, v[0], v[1]) for k, v in entries.items()), data_sum, version=2)
+            except Exception as e:
+                res["write_exc"] = type(e).__name__ + ":" + str(e)[:100]
+                return res
+            p = P.Pack(out, object_format=SHA1)
+            try:
+                res["out_deltas"] = sum(1 for u in p.data.iter_unpacked() if u.pack_type_num in (6, 7))
+                res["random_ok"] = all(p.get_raw(i) == (3, ids[i]) for i in subset)
+                res["seq_ok"] = sorted(o.id for o in p.iterobjects()) == sorted(subset)
+                p.check()
+                res["check_ok"] = True
+            except Exception as e:
+                res["read_exc"] = type(e).__name__ + ":" + str(e)[:100]
+            finally:
+                p.close()
+            g2 = os.path.join(d, "v.git")
+            _git(["init", "-q", "--bare", g2], "/")
+            r = _git(["index-pack", "--strict", "--stdin"], g2, input=open(out + ".pack", "rb").read())
+            res["git_index_pack"] = r.returncode
+            res["git_err"] = r.stderr.decode("latin1")[-200:]
+            return res
+        finally:
+            st.close()
+    finally:
+        shutil.rmtree(d, ignore_errors=True)
+
+
+HANDLERS = dict(repack_roundtrip=repack_roundtrip, helpers=helpers, idx=idx, pack_roundtrip=pack_roundtrip, git_pack=git_pack, store_add_objects=store_add_objects)
